@@ -16,7 +16,9 @@ import (
 	"net"
 	"os"
 	"path/filepath"
+	"regexp"
 	"runtime/pprof"
+	"strconv"
 	"strings"
 	"sync"
 	"time"
@@ -589,6 +591,8 @@ func clientAddr(k, c int) (string, int) {
 	return fmt.Sprintf("198.51.%d.%d", 100+(k/250)%100, 1+k%250), 2000 + c
 }
 
+var rePasv = regexp.MustCompile(`227 [^(]*\(\d+,\d+,\d+,\d+,(\d+),(\d+)\)`)
+
 func runConn(srv *lab.Server, s gen.Service, sc scenario, k, c int) (reply, linger int) {
 	ip, port := clientAddr(k, c)
 	if s.Net == "udp" {
@@ -629,6 +633,21 @@ func runConn(srv *lab.Server, s gen.Service, sc scenario, k, c int) (reply, ling
 	deadline := time.Now().Add(100 * time.Millisecond)
 	for !cc.Srv.Closed() && time.Now().Before(deadline) {
 		time.Sleep(500 * time.Microsecond)
+	}
+	if s.Type == "ftp" {
+		// a peer that turns up on a passive data port after the control session is over (the listener waits for up
+		// to 30 s): it connects, says nothing or a few bytes, and leaves
+		for i, m := range rePasv.FindAllSubmatch(cl.Received(), 4) {
+			p1, _ := strconv.Atoi(string(m[1]))
+			p2, _ := strconv.Atoi(string(m[2]))
+			if dc, err := net.DialTimeout("tcp", fmt.Sprintf("127.0.0.1:%d", p1*256+p2), 300*time.Millisecond); err == nil {
+				if i%2 == 1 {
+					dc.Write([]byte("late"))
+				}
+				time.Sleep(5 * time.Millisecond)
+				dc.Close()
+			}
+		}
 	}
 	if !cc.Srv.Closed() {
 		linger = 1
